@@ -284,7 +284,8 @@ class Runner:
             par = "out=%s" % os.path.join(rundir, "req.bin")
             if cfg["plugin"] == "patch":
                 par += ",patch=%s" % main_go_path(case["p"])
-            cmd += ["-p", "verifdump=%s:%s" % (self.plugin, par)]
+            # thriftgo kills a plugin after one minute by default; a loaded machine must not look like a verdict
+            cmd += ["-plugin-time-limit", "20m", "-p", "verifdump=%s:%s" % (self.plugin, par)]
         if cfg["recursive"]:
             cmd.append("-r")
         cmd.append(idl_main)
@@ -298,11 +299,15 @@ class Runner:
         env = dict(self.ctx.env)
         env["GOMAXPROCS"] = gmp
         cmd = self.cmd(case, idl_main, rundir)
-        try:
-            pr = subprocess.run(cmd, cwd=rundir, env=env, stdout=subprocess.PIPE, stderr=subprocess.PIPE, timeout=120)
+        rc, err = None, ""
+        for attempt in (1, 2):      # a failing execution is repeated once before it counts (DESIGN 2.2)
+            try:
+                pr = subprocess.run(cmd, cwd=rundir, env=env, stdout=subprocess.PIPE, stderr=subprocess.PIPE, timeout=1200)
+            except subprocess.TimeoutExpired:
+                raise vlib.MachineryError("thriftgo did not finish within 1200 s: %s" % " ".join(cmd))
             rc, err = pr.returncode, (pr.stdout + pr.stderr).decode("utf-8", "replace")
-        except subprocess.TimeoutExpired:
-            rc, err = -9, "timeout"
+            if rc == 0:
+                break
         return self.snapshot(rundir, rc, err), cmd
 
     def snapshot(self, rundir, rc, err):
